@@ -26,6 +26,16 @@ extern "C" void* __wrap_malloc(size_t n)
   return __real_malloc(n);
 }
 
+extern "C" void __real_free(void*);
+static void* g_watch_free = nullptr;
+static int g_watch_freed = 0;
+extern "C" void __wrap_free(void* p)
+{
+  if (p && p == g_watch_free)
+    g_watch_freed++;
+  __real_free(p);
+}
+
 enum Kind
 {
   B_MEMSET,
@@ -584,12 +594,39 @@ struct BulkWorld : World
       g_fault.malloc_straddle = 1;
     char* src = (char*)appbuf + ((uint64_t)op.a[4] % 256);
     bool src_ok = num <= APPMAX - 256;
+    // optionally hand over a heap buffer that RLBox is to free once it has been copied
+    bool free_src = (op.a[3] & 1) && num >= 1 && num <= 1024;
+    char* hsrc = nullptr;
+    g_watch_free = nullptr;
+    g_watch_freed = 0;
+    if (free_src) {
+      hsrc = (char*)aligned_alloc(4096, 4096); // page aligned: never straddles a region-sized block, whatever the heap looks like
+      for (uint64_t i = 0; i < num; i++)
+        hsrc[i] = (char)(0x30 + i % 40);
+      memcpy(src, hsrc, (size_t)num); // `src` keeps a reference copy of the content
+      g_watch_free = hsrc;
+      g_watch_freed = 0;
+    }
     Snap before = snap();
     bool copied = false;
     TP<char> got = nullptr;
-    Outcome o = guarded([&] { got = rlbox::copy_memory_or_grant_access(*sb[0], src, (size_t)num, false, copied); });
+    Outcome o = guarded([&] { got = rlbox::copy_memory_or_grant_access(*sb[0], free_src ? hsrc : src, (size_t)num, free_src, copied); });
     g_fault.clear();
-    C->ev("grant num=%llu fault=%d -> %s copied=%d", (unsigned long long)num, fault, oname(o), (int)copied);
+    C->ev("grant num=%llu fault=%d free_src=%d -> %s copied=%d freed=%d", (unsigned long long)num, fault, (int)free_src, oname(o), (int)copied, g_watch_freed);
+    if (free_src) {
+      g_watch_free = nullptr;
+      C->probe("grant_with_source_to_be_freed");
+      bool should_free = o == OK && copied;
+      if (g_watch_freed != (should_free ? 1 : 0))
+        C->violate("C10",
+                   std::string(g_watch_freed ? "source_freed_without_successful_copy@" : "copied_source_not_freed@") + "grant_access",
+                   "free_source_on_copy: outcome %s copied=%d, the source buffer was freed %d times",
+                   oname(o),
+                   (int)copied,
+                   g_watch_freed);
+      if (g_watch_freed == 0)
+        __real_free(hsrc);
+    }
     Snap after = snap();
     uintptr_t ga = (uintptr_t)got.UNSAFE_unverified();
     if (o == OK && ga != 0) {
@@ -629,10 +666,25 @@ struct BulkWorld : World
     Snap before = snap();
     bool copied = false;
     T* got = nullptr;
-    Outcome o = guarded([&] { got = rlbox::copy_memory_or_deny_access(*sb[0], p, (size_t)num, false, copied); });
+    bool free_src = ((op.a[3] / 3) & 1) != 0;
+    uint64_t frees_before = impl[0]->n_frees;
+    Outcome o = guarded([&] { got = rlbox::copy_memory_or_deny_access(*sb[0], p, (size_t)num, free_src, copied); });
     g_fault.clear();
     g_host_malloc_fail = 0;
     bool in_place = got != nullptr && (uintptr_t)got == a;
+    if (free_src) {
+      C->probe("deny_with_source_to_be_freed");
+      uint64_t frees = impl[0]->n_frees - frees_before;
+      bool should_free = o == OK && copied && got != nullptr;
+      if (frees != (should_free ? 1u : 0u) || (should_free && impl[0]->last_free_rep != (uint32_t)off))
+        C->violate("C10",
+                   std::string(frees && !should_free ? "source_freed_without_successful_copy@" : "copied_source_not_freed@") + "deny_access",
+                   "free_source_on_copy: outcome %s copied=%d result=%s, sandbox free called %llu times",
+                   oname(o),
+                   (int)copied,
+                   got ? "non-null" : "null",
+                   (unsigned long long)frees);
+    }
     C->ev("deny<%zu> off=%llu num=%llu mode=%d -> %s in_place=%d", sizeof(T), (unsigned long long)off, (unsigned long long)num, mode, oname(o), (int)in_place);
     if (in_place)
       C->probe("deny_access_handed_over_in_place");
